@@ -9,6 +9,17 @@ NEG_CODES = [425, 426, 450, 451, 452, 500, 501, 502, 503, 504, 530, 550, 551, 55
 POS_COMPLETION = [200, 202, 211, 212, 213, 214, 215, 220, 221, 225, 226, 230, 250, 257]
 
 
+def _upto_empty(chunks):
+    """what a source hands out before its first empty read: the upload ends there (data_connection::send never asks
+    again), whatever the source would return later"""
+    out = []
+    for c in chunks:
+        if not c:
+            break
+        out.append(c)
+    return out
+
+
 class Builder:
     """one client object's history against one or more scripted sessions"""
 
@@ -255,13 +266,23 @@ class Builder:
                 cmds.append(line)
                 reps.append(rp)
             else:
-                pre = self.m(cmd_code, "opening")
+                total = sum(len(x) for x in payload_segs)
+                # servers announce the size in the preliminary reply; the number need not be what is then sent
+                words = self.rng.choice(["opening", "opening", "Opening BINARY mode data connection for f (%d bytes)." % total,
+                                         "Opening BINARY mode data connection (%d bytes)" % (total // 2),
+                                         "Opening data connection (0 bytes)", "Opening (%d bytes)" % (total + 100),
+                                         "about to open (bytes) (12 bytes)"]) if kind != "U" else "opening"
+                pre = self.m(cmd_code, words)
                 done = self.m(done_code, "complete")
                 ddir = "recv" if kind == "U" else "send"
                 data = dict(dir=ddir, mode=("active" if self.mode == "A" else "passive"), tls=self.tls, tls_ok=data_tls_ok,
                             segs=list(payload_segs), end=end, reachable=True)
                 cancelled = abor is not None
-                if data_fault == "handshake":
+                if data_fault == "rogue-cert":
+                    data["cert"] = "rogue"           # the peer does its part; a verifying client must refuse the chain
+                    if self.cfg["verify"] != "none":
+                        data["model_tls_ok"] = False
+                elif data_fault == "handshake":
                     data["tls_ok"] = False
                 elif data_fault == "truncate":
                     data["end"] = "X"
@@ -304,10 +325,11 @@ class Builder:
             call = ("F", path, names)
         self.cfg_type_at[ci] = self.type
         faulty = (data_fault in ("handshake",) and self.tls and refuse_at is None) or \
+                 (data_fault == "rogue-cert" and self.tls and refuse_at is None and self.cfg["verify"] != "none") or \
                  (data_fault == "truncate" and self.tls and refuse_at is None and kind != "U") or \
                  (listen == "dead" and self.mode == "P" and refuse_at != "setup")
         if listen == "dead" and self.mode == "P" and refuse_at != "setup":
             cmds = cmds[:1]            # the data connection cannot be opened: the transfer command is never sent
         return self.add_call(call, cmds=cmds, replies=reps, moves_data=moves and not faulty, refused=(refuse_at is not None),
-                             payload=b"".join(payload_segs), source=b"".join(chunks), cancelled=(abor is not None),
+                             payload=b"".join(payload_segs), source=b"".join(_upto_empty(chunks)), cancelled=(abor is not None),
                              throws=faulty)
